@@ -368,6 +368,9 @@ func (env *SpecEnv) selectField(base Val, field string) Val {
 				}
 			}
 		}
+		if gh := ghostFieldHeap(structT, field); gh != "" {
+			return st.loadField(env.heapMap(), base.S, structT, field)
+		}
 		env.fail("no field %s in %s", field, structT)
 	case KSlice:
 		switch field {
@@ -819,6 +822,23 @@ func (env *SpecEnv) evalCall(n *SNode) Val {
 	case "ispow2":
 		st.fc.V.ispow2Prelude()
 		return vBool(sApp("g_ispow2", env.eval(n.Args[0]).S))
+	case "cast":
+		// cast(TypeName, e): the reference e viewed as *TypeName (unsafe.Pointer fields hold typed nodes)
+		tn := n.Args[0].Text
+		var pt types.Type
+		if env.pkg != nil {
+			if o := env.pkg.Types.Scope().Lookup(tn); o != nil {
+				pt = types.NewPointer(o.Type())
+			}
+		}
+		if pt == nil {
+			env.fail("cast: unknown type %s", tn)
+		}
+		v := env.eval(n.Args[1])
+		if v.K == KNil {
+			return vInt("0", pt)
+		}
+		return vInt(v.S, pt)
 	case "isString":
 		v := env.eval(n.Args[0])
 		return vBool(boolStr(v.K == KString))
